@@ -841,7 +841,7 @@ fn narrow_operands(
     let narrowed = left_shape.narrow(right_shape, symbol_table);
     // Narrowing two compatible list shapes yields the one contained in the
     // other. A concatenation holds the elements of both lists, so it has the
-    // shape that contains the other.
+    // element shapes of both.
     if let (
         BinaryExprType::Add,
         Shape::List(NarrowedShape {
@@ -855,11 +855,11 @@ fn narrow_operands(
         Shape::List(_),
     ) = (&def.kind, left_shape, right_shape, &narrowed)
     {
-        return if left_types.len() >= right_types.len() {
-            left_shape.clone()
-        } else {
-            right_shape.clone()
-        };
+        let mut merged = NarrowedShape::new_with_pos(left_types.clone(), left_shape.pos().clone());
+        for shape in right_types.iter() {
+            merged.merge_in_shape(shape.clone(), symbol_table);
+        }
+        return Shape::List(merged);
     }
     match (left_shape, right_shape, narrowed) {
         (Shape::TypeErr(_, _), _, narrowed) | (_, Shape::TypeErr(_, _), narrowed) => narrowed,
